@@ -339,3 +339,90 @@ def rule_ligand_block_model(prog, rep, rid):
     others_once = all(sum(1 for x in hits2 if x is a) == 1 for a in hits if a["residue"] is not lig)
     r.add("ligand|lists-partition", left == ["ZN4:ZN"] and others_once and not any(a in misses2 for a in hits2),
           f"reported as unassigned afterwards: {left} (only the ion has no parameters); every other atom is printed once", where)
+
+
+# ----------------------------------------------------------------------------------------------------------------------
+# Ingestion: Biomolecule.__init__ on model record lists
+def _rec(cls, serial, name, res_name, chain, seq, icode="", alt=""):
+    from ..guards import Obj
+    return Obj({"__class__": cls, "serial": serial, "name": name, "res_name": res_name, "chain_id": chain, "res_seq": seq, "ins_code": icode,
+                "alt_loc": alt, "x": float(serial), "y": 0.0, "z": 0.0, "occupancy": 1.0, "temp_factor": 0.0, "seg_id": "", "element": "", "charge": "",
+                "__id__": f"{cls}{serial}"})
+
+
+def _mark(cls, serial=None):
+    from ..guards import Obj
+    return Obj({"__class__": cls, "serial": serial, "__id__": f"{cls}{serial if serial is not None else ''}"})
+
+
+def ingestion_scenarios():
+    """name -> (records, expected [(chain id, residue name, [record ids])] in file order).  Expectations follow the property: every
+    coordinate record of the first model becomes part of exactly one residue; a residue is a maximal run of records with one
+    (chain, resSeq, iCode); TER/END/MODEL bookkeeping never loses the pending residue."""
+    A, H = "ATOM", "HETATM"
+    sc = {}
+    recs = [_mark("HEADER"), _rec(A, 1, "N", "ALA", "A", 1), _rec(A, 2, "CA", "ALA", "A", 1), _rec(A, 3, "C", "ALA", "A", 1),
+            _rec(A, 4, "N", "SER", "A", 2), _rec(A, 5, "CA", "SER", "A", 2), _rec(A, 6, "N", "SER", "A", 2, "A"), _rec(A, 7, "CA", "SER", "A", 2, "A"),
+            _rec(A, 8, "N", "GLY", "A", 3), _mark("TER"), _rec(A, 9, "N", "GLY", "B", 3), _rec(A, 10, "CA", "GLY", "B", 3),
+            _rec(H, 11, "O", "HOH", "A", 101), _rec(H, 12, "O", "HOH", "A", 102), _mark("END")]
+    sc["chains, insertion code, same number in another chain, hetero records after TER"] = (recs, [
+        ("A", "ALA", ["ATOM1", "ATOM2", "ATOM3"]), ("A", "SER", ["ATOM4", "ATOM5"]), ("A", "SER", ["ATOM6", "ATOM7"]), ("A", "GLY", ["ATOM8"]),
+        ("B", "GLY", ["ATOM9", "ATOM10"]), ("A", "HOH", ["HETATM11"]), ("A", "HOH", ["HETATM12"])])
+    recs = [_rec(A, 1, "N", "ALA", "", 1), _rec(A, 2, "CA", "ALA", "", 1), _rec(A, 3, "N", "GLY", "", 2), _mark("TER"),
+            _rec(A, 4, "N", "SER", "", 1), _rec(A, 5, "CA", "SER", "", 1), _rec(H, 6, "O", "HOH", "", 50)]
+    sc["no chain identifiers, one TER, no END"] = (recs, [
+        ("A", "ALA", ["ATOM1", "ATOM2"]), ("A", "GLY", ["ATOM3"]), ("B", "SER", ["ATOM4", "ATOM5"]), ("", "HOH", ["HETATM6"])])
+    recs = [_rec(A, 1, "N", "ALA", "A", 1), _mark("END"), _rec(A, 2, "N", "GLY", "A", 2), _mark("END"), _mark("END")]
+    sc["END in the middle and repeated"] = (recs, [("A", "ALA", ["ATOM1"]), ("A", "GLY", ["ATOM2"])])
+    recs = [_mark("MODEL", 1), _rec(A, 1, "N", "ALA", "A", 1), _rec(A, 2, "N", "GLY", "A", 2), _mark("ENDMDL"),
+            _mark("MODEL", 2), _rec(A, 3, "N", "ALA", "A", 1), _rec(A, 4, "N", "GLY", "A", 2), _mark("ENDMDL"), _mark("END")]
+    sc["two models"] = (recs, [("A", "ALA", ["ATOM1"]), ("A", "GLY", ["ATOM2"])])
+    recs = [_mark("MODEL", 5), _rec(A, 1, "N", "ALA", "A", 1), _rec(A, 2, "N", "GLY", "A", 2), _mark("TER"), _mark("ENDMDL")]
+    sc["one model numbered 5, no END"] = (recs, [("A", "ALA", ["ATOM1"]), ("A", "GLY", ["ATOM2"])])
+    recs = [_rec(A, 1, "N", "ALA", "A", 1, "", "A"), _rec(A, 2, "N", "ALA", "A", 1, "", "B"), _rec(A, 3, "CA", "ALA", "A", 1), _rec(A, 4, "N", "GLY", "A", -1)]
+    sc["alternate locations and a negative number, no trailer at all"] = (recs, [("A", "ALA", ["ATOM1", "ATOM2", "ATOM3"]), ("A", "GLY", ["ATOM4"])])
+    return sc
+
+
+def rule_ingestion_model(prog, rep, rid, only=None):
+    """Biomolecule.__init__ is evaluated on model record lists; residue construction itself is intercepted (its first-wins
+    rule is decided separately) so that what is compared is which records reach which residue of which chain."""
+    from ..guards import Flow, Obj
+    from ..objinterp import ObjRunner
+    r = rep.rule(rid, "model record lists: every coordinate record of the first model reaches exactly one residue of the right chain", floor=1 if only else 5)
+    fi = prog.func("biomolecule.py", "Biomolecule.__init__")
+    where = f"pdb2pqr/biomolecule.py:{fi.node.lineno} (Biomolecule.__init__)"
+    for label, (records, want) in ingestion_scenarios().items():
+        if only and not any(o in label for o in only):
+            continue
+        made = []
+
+        def extra(runner, interp, call, args, kw, made=made):
+            if isinstance(call.func, ast.Attribute) and call.func.attr == "create_residue" and len(args) == 2:
+                res = Obj({"__class__": "Residue", "name": args[1], "__records__": [x["__id__"] for x in args[0]],
+                           "chain_id": args[0][0]["chain_id"] if args[0] else None, "atoms": []})
+                made.append(res)
+                return res
+            return NotImplemented
+
+        run = ObjRunner(prog, "biomolecule.py", extra_hook=extra)
+        fresh = [Obj(dict(x)) for x in records]
+        bio = Obj({"__class__": "Biomolecule", "chains": [], "chainmap": {}, "residues": []})
+        try:
+            run.call(bio, "__init__", fresh, Obj({"__class__": "Definition", "map": {}}))
+        except Flow as fl:
+            r.bad(f"ingest|{label}", f"Biomolecule.__init__ stops with {fl.value} on: {label}", where)
+            continue
+        got = []
+        chain_of = {}
+        for ch in bio.get("chains", []):
+            for res in ch["residues"]:
+                chain_of[id(res)] = ch["chain_id"]
+        for res in made:
+            got.append((chain_of.get(id(res), "<in no chain>"), res["name"], list(res["__records__"])))
+        in_list = [id(x) for x in bio.get("residues", [])]
+        listed = all(id(res) in in_list for res in made) and len(in_list) == len(made)
+        ok = got == want and listed
+        r.add(f"ingest|{label}", ok, f"{label}: {len(want)} residues, every record in exactly one, chains {sorted({c for c, _, _ in want})}" if ok else
+              f"{label}: expected {want}, Biomolecule.__init__ builds {got}" + ("" if listed else "; self.residues does not list exactly the residues built"), where)
+    r.info["methods_interpreted"] = sorted(set(run.calls))
